@@ -271,7 +271,8 @@ def _single(case, i):
   kw = cfg["kw"]
   if isinstance(kw.get("alpha"), list) or kw.get("scale_axis") is not None or i is None:
     return None
-  return {"cfg": cfg, "shape": [1], "xs": [case["xs"][i]], "rs": [case["rs"][i]]}
+  shape = [1, 1] if kw.get("use_stochastic_rounding") and cfg["cls"] in ("binary", "ternary") else [1]
+  return {"cfg": cfg, "shape": shape, "xs": [case["xs"][i]], "rs": [case["rs"][i]]}
 
 
 def _emit(ctx, case, fails, reduce=True):
